@@ -19,6 +19,7 @@ const (
 	c19Oversized = vcNumFaults + iota // well-formed response whose body exceeds MaxResponseBodySize
 	c19DialErr
 	c19OversizedChunked // the same, chunked
+	c19OversizedIdentity // the same, delimited by the close, arriving in reads no larger than the limit
 	)
 
 var c19Delays = [...]time.Duration{0, 300 * time.Millisecond, 1100 * time.Millisecond}
@@ -98,6 +99,8 @@ func c19Run(faults []int, methods []string, attemptsLo, attemptsHi int, callback
 			c.segs = [][]byte{[]byte("HTTP/1.1 200 OK\r\nContent-Length: 9\r\n\r\n123456789")}
 		case c19OversizedChunked:
 			c.segs = [][]byte{[]byte("HTTP/1.1 200 OK\r\nTransfer-Encoding: chunked\r\n\r\n9\r\n123456789\r\n0\r\n\r\n")}
+		case c19OversizedIdentity:
+			c.segs = [][]byte{[]byte("HTTP/1.1 200 OK\r\nConnection: close\r\n\r\n"), []byte("123"), []byte("456"), []byte("789")}
 		case vcOK:
 			c.segs = [][]byte{[]byte("HTTP/1.1 200 OK\r\nContent-Length: 2\r\n\r\nhi")}
 		default:
@@ -133,14 +136,15 @@ func c19Run(faults []int, methods []string, attemptsLo, attemptsHi int, callback
 	vAssert("body-stream-never-retried", !bodyStream || nw.dials <= 1)
 	overs, late := true, true
 	for i, t := range txs {
-		if (t.kind == c19Oversized || t.kind == c19OversizedChunked) && i != len(txs)-1 {
+		if (t.kind == c19Oversized || t.kind == c19OversizedChunked || t.kind == c19OversizedIdentity) && i != len(txs)-1 {
 			overs = false
 		}
 		if withTimeout && t.begin >= T {
 			late = false
 		}
 	}
-	vAssert("oversized-response-never-retried", overs && (len(txs) == 0 || (txs[len(txs)-1].kind != c19Oversized && txs[len(txs)-1].kind != c19OversizedChunked) || err == ErrBodyTooLarge || method == "HEAD"))
+	vAssert("oversized-response-never-retried", overs && (len(txs) == 0 || (txs[len(txs)-1].kind != c19Oversized && txs[len(txs)-1].kind != c19OversizedChunked && txs[len(txs)-1].kind != c19OversizedIdentity) || err == ErrBodyTooLarge || method == "HEAD"))
+	vAssert("never-more-than-the-limit-handed-to-the-caller", len(resp.Body()) <= hc.MaxResponseBodySize || err != nil)
 	vAssert("no-transmission-after-the-timeout", late)
 	// a successful exchange is returned as such
 	if len(txs) > 0 && txs[len(txs)-1].kind == vcOK && nw.dials == len(txs) {
@@ -152,7 +156,7 @@ func c19Run(faults []int, methods []string, attemptsLo, attemptsHi int, callback
 // vhC19Faults: every method × MaxIdemponentCallAttempts ∈ [-1, maxAttempts]
 // (symbolic) × every fault sequence, no callbacks, no timeout.
 func vhC19Faults() {
-	faults := []int{vcOK, vcWriteErr, vcEOF, vcReadTimeout, c19Oversized, c19DialErr, c19OversizedChunked}
+	faults := []int{vcOK, vcWriteErr, vcEOF, vcReadTimeout, c19Oversized, c19DialErr, c19OversizedChunked, c19OversizedIdentity}
 	if vParam("resetFault", 0) > 0 {
 		faults = append(faults, vcReadReset)
 	}
